@@ -153,14 +153,30 @@ def _one(args):
 
 
 def run_impl(L, scenarios):
+    out = []
+    for i in range(0, len(scenarios), 600):
+        out += _run_batch(L, scenarios[i:i + 600])
+    return out
+
+
+def _run_batch(L, scenarios):
+    # A fresh squid every 1200 scenarios and a memory cache that cannot fill up within that many: the
+    # revalidation direction needs the first response to be cached, and a non-shared memory cache that is full
+    # does not keep new entries until its next maintenance pass (seen in the thorough tier after ~2300 scenarios
+    # with cache_mem 8 MB: `noreval 304 arrivals=2`, a false alarm of this check, not a C04 violation).
+    if "sq" in _state and _state["sq"].alive() and _state.get("since", 0) >= 1200:
+        _state["sq"].stop()
     if "sq" not in _state or not _state["sq"].alive():
-        _state["org"] = L.origin()
-        _state["sq"] = L.squid()
-        _state["n"] = 0
+        if "org" not in _state:
+            _state["org"] = L.origin()
+            _state["n"] = 0
+        _state["sq"] = L.squid(cache_mem="256 MB")
+        _state["since"] = 0
     sq, org = _state["sq"], _state["org"]
     jobs = []
     for s in scenarios:
         _state["n"] += 1
+        _state["since"] += 1
         jobs.append((sq, org, s, "c%d" % _state["n"]))
     with concurrent.futures.ThreadPoolExecutor(max_workers=8) as ex:
         return list(ex.map(_one, jobs))
